@@ -44,6 +44,13 @@ type Opts struct {
 	Kill    func(ssa.Instruction) []string
 	// Assume seeds the condition memo at the start points (key → value).
 	Assume map[string]bool
+	// AssumeNonNil: these values (error results of calls) are known to be non-nil at the start
+	// points: "what can happen once this call has failed".
+	AssumeNonNil []ssa.Value
+	// AssumeConds fixes the truth of boolean values (comparisons) that are not branch conditions
+	// themselves but are merged into a tracked boolean phi (`return a == X || a == Y` of an expanded
+	// helper): the phi takes the given value when it comes in through that edge.
+	AssumeConds map[ssa.Value]bool
 }
 
 // Reached is the result of a traversal.
@@ -145,11 +152,16 @@ func trackedPhis(fn *ssa.Function) *phiInfo {
 				// negative sentinel: tracked as "the constant k" or "not negative"
 				out.ints[p] = true
 			} else if nilable(p.Type()) {
-				// only worth tracking when some incoming value is the nil constant
+				// only worth tracking when some incoming value is the nil constant, or for the
+				// result temporary of an expanded helper (every return of the helper may wrap a
+				// value whose nil-ness the path has already learnt)
 				for _, e := range p.Edges {
 					if IsNilConst(e) {
 						out.phis[p] = true
 					}
+				}
+				if strings.HasPrefix(p.Comment, "_ir") {
+					out.phis[p] = true
 				}
 			}
 		}
@@ -579,7 +591,7 @@ func Reach(fn *ssa.Function, starts []Pt, o Opts) *Reached {
 	var tracked *phiInfo
 	if !o.NoFlags {
 		tracked = trackedPhis(fn)
-		if len(tracked.phis) == 0 && len(tracked.ints) == 0 {
+		if len(tracked.phis) == 0 && len(tracked.ints) == 0 && len(o.AssumeNonNil) == 0 {
 			tracked = nil
 		}
 	}
@@ -633,6 +645,12 @@ func Reach(fn *ssa.Function, starts []Pt, o Opts) *Reached {
 				val = 1
 			}
 			env = envSet(env, map[string]int{"K:" + k: val})
+		}
+		if tracked != nil {
+			for _, v := range o.AssumeNonNil {
+				tracked.relevant[v] = true
+				env = envSet(env, map[string]int{"N:" + v.Name(): 1})
+			}
 		}
 		push(state{pt: normalize(p), env: env}, nil)
 	}
@@ -800,6 +818,12 @@ func Reach(fn *ssa.Function, starts []Pt, o Opts) *Reached {
 						}
 						if cb, ok := ConstBool(inc); ok {
 							if cb {
+								upd[p.Name()] = flip(1)
+							} else {
+								upd[p.Name()] = flip(0)
+							}
+						} else if av, ok := o.AssumeConds[inc]; ok {
+							if av {
 								upd[p.Name()] = flip(1)
 							} else {
 								upd[p.Name()] = flip(0)
